@@ -69,11 +69,29 @@ class Stats:
         }
 
 
+WORK_DIR = os.path.join(_OUT, ".work")
+
+
+def crumb_path(prop, shard):
+    return os.path.join(WORK_DIR, prop, f"shard{shard}.json")
+
+
 class Ctx:
     def __init__(self, prop, tier, seed, shard, nshards):
         self.prop, self.tier, self.seed, self.shard, self.nshards = prop, tier, seed, shard, nshards
         self.stats = Stats()
         self.known_signatures = load_known_signatures(prop)
+        self._crumb = crumb_path(prop, shard)
+        os.makedirs(os.path.dirname(self._crumb), exist_ok=True)
+
+    def crumb(self, case):
+        """remember the case that is about to be executed: if the code under test never comes back
+        (a hang inside C code cannot be interrupted in-process) the parent finds it here"""
+        try:
+            with open(self._crumb, "w") as f:
+                json.dump({"t": time.time(), "case": case}, f, default=str)
+        except Exception:
+            pass
 
     @property
     def hyp_seed(self):
@@ -81,6 +99,7 @@ class Ctx:
 
     def run_fixed(self, case, check):
         """run one enumerated (not generated) case; a violation is recorded instead of raised"""
+        self.crumb(case)
         try:
             check(case)
         except Violation as v:
@@ -169,6 +188,7 @@ def hyp_search(ctx, strategy, check, max_examples, label="main", shrink_calls=40
             holder["post"] += 1
             if holder["post"] > shrink_calls:
                 return  # shrink budget used up: every new candidate counts as passing
+        ctx.crumb(case)
         try:
             check(case)
         except Violation as v:
@@ -303,18 +323,52 @@ def run_check(prop, tier, seed, out=print):
     nshards = mod.nshards(tier) if hasattr(mod, "nshards") else 16
     args = [(prop, tier, seed, i, nshards) for i in range(nshards)]
     dumps = []
-    if nshards == 1:
-        results = [_shard_main(args[0])]
+    hung = []
+    import shutil
+
+    shutil.rmtree(os.path.join(WORK_DIR, prop), ignore_errors=True)
+    ctxmp = multiprocessing.get_context(os.environ.get("PV_MP", "spawn"))
+    workers = min(int(os.environ.get("PV_WORKERS", str(getattr(mod, "WORKERS", 4)))), nshards)
+    deadline = float(os.environ.get("PV_DEADLINE", str((getattr(mod, "DEADLINE", None) or {}).get(tier, 1200 if tier == "quick" else 4 * 3600))))
+    ex = concurrent.futures.ProcessPoolExecutor(max_workers=workers, mp_context=ctxmp)
+    futs = [ex.submit(_shard_main, a) for a in args]
+    done, not_done = concurrent.futures.wait(futs, timeout=deadline)
+    results = []
+    if not_done:
+        # some shard did not come back: kill the workers and look at what each was doing
+        now = time.time()
+        for p in list(getattr(ex, "_processes", {}).values()):
+            try:
+                p.kill()
+            except Exception:
+                pass
+        ex.shutdown(wait=False, cancel_futures=True)
+        stuck_found = False
+        for i, f in enumerate(futs):
+            if f in done and not f.cancelled() and f.exception() is None:
+                results.append(f.result())
+                continue
+            try:
+                with open(crumb_path(prop, i)) as fh:
+                    c = json.load(fh)
+            except Exception:
+                continue
+            out(f"NOTE: shard {i} unfinished at the deadline, current case running for {now - c['t']:.0f} s")
+            if now - c["t"] > 150:
+                stuck_found = True
+                hung.append({"signature": "C10:does-not-return-within-cap", "case": c["case"],
+                             "detail": {"stuck_for_s": round(now - c["t"]), "shard": i, "note": "the worker was killed by the runner's deadline while executing this case"}})
+        if not stuck_found:
+            raise HarnessError(f"deadline of {deadline:.0f} s exceeded without a stuck case (check too slow for this machine?)")
     else:
-        ctxmp = multiprocessing.get_context(os.environ.get("PV_MP", "spawn"))
-        workers = min(int(os.environ.get("PV_WORKERS", str(getattr(mod, "WORKERS", 4)))), nshards)
-        with concurrent.futures.ProcessPoolExecutor(max_workers=workers, mp_context=ctxmp) as ex:
-            results = list(ex.map(_shard_main, args))
+        ex.shutdown(wait=True)
+        results = [f.result() for f in futs]
     for r in results:
         if not r["ok"]:
             raise HarnessError("shard failed:\n" + r["error"])
         dumps.append(r["stats"])
     st = merge(dumps)
+    st.violations.extend(hung[:1])
     viols = check_known(prop, mod, out)
     # de-duplicate generated violations by signature
     seen = set()
@@ -329,6 +383,7 @@ def run_check(prop, tier, seed, out=print):
         replay_paths.append(p)
         out(f"VIOLATION property={prop} replay={p}")
         out(f"  signature: {v['signature']}")
+    shutil.rmtree(os.path.join(WORK_DIR, prop), ignore_errors=True)
     wall = time.time() - t0
     cov = {
         "evaluations": st.evaluations,
